@@ -181,8 +181,23 @@ def record(cfg: dict, seed: int, terms: dict) -> sweep.SweepLog:
         c_flt0 = np.zeros(len(p))
     as_int = bool(np.all(P == np.round(P)) and (i // len(FAMILIES)) % 2 == 0)   # integer pressure column, as read from a csv file
     pvt_t, kr_t = mp.frames(P.astype(np.int64) if as_int else P, tab["cols"], so_t, kr_so, kr_cols, sw, as_frame=bool(i % 2 == 0))
-    fp = mp.from_table(pvt_t, kr_t, rho, phi, sw, float(P[-1]))
+    dens = mp.reordered(rho, i)          # the caller's dictionary: kept, updated and used again below (a parameter study)
+    fp = mp.from_table(pvt_t, kr_t, rho, phi, sw, float(P[-1]), rho_dict=dens)
     tab_alpha = np.asarray(fp.pvt_props["alpha"], float)
+    # the same functions through the accessors the object carries (how a simulator uses the object)
+    have_acc = isinstance(getattr(fp, "pvt", None), dict) and isinstance(getattr(fp, "kr", None), dict)
+    if have_acc:
+        lam_obj = mp.quiet(lambda_combined_func, p, so, fp.pvt, fp.kr)
+        c_obj = mp.quiet(compressibility_combined_func, p, so, phi, sw, fp.pvt)
+        # next case of the study: other densities in the same dictionary, another table; the first object is still in use
+        for name in ("rho_o0", "rho_g0", "rho_w0"):
+            dens[name] = rho[name] * 1.7
+        cols2 = {k: np.asarray(v, float) * (1.3 if k != "Rv" else 1.0) for k, v in tab["cols"].items()}
+        pvt_t2, kr_t2 = mp.frames(P, cols2, so_t, kr_so, kr_cols, sw, as_frame=bool(i % 2 == 1))
+        mp.from_table(pvt_t2, kr_t2, rho, phi, sw, float(P[-1]), rho_dict=dens)
+        lam_kept = mp.quiet(lambda_combined_func, p, so, fp.pvt, fp.kr)
+    else:
+        lam_obj = c_obj = lam_kept = np.full(len(p), np.nan)
     # oracle: documented sums from the spec's term lists, with the code's own interpolators, fixed saturation
     s_up = phi * mp.eval_terms(terms["storage"], pvt, kr, p + 0.5, so, sw)
     s_dn = phi * mp.eval_terms(terms["storage"], pvt, kr, p - 0.5, so, sw)
@@ -198,10 +213,13 @@ def record(cfg: dict, seed: int, terms: dict) -> sweep.SweepLog:
         scale = s_up[j] + s_dn[j]
         ref = s_up[j] - s_dn[j]
         agree = {"cdiff": quant.e15(cp[j], ref, scale), "phi": quant.e15(cpa[j], a * cp[j], a * scale),
-                 "lam": quant.e15(lam[j], doc[j], doc[j]), "intso": quant.e15(c_int0[j], c_flt0[j], scale)}
+                 "lam": quant.e15(lam[j], doc[j], doc[j]), "intso": quant.e15(c_int0[j], c_flt0[j], scale),
+                 "objlam": quant.e15(lam_obj[j], doc[j], doc[j]), "objc": quant.e15(c_obj[j], ref, scale),
+                 "kept": quant.e15(lam_kept[j], doc[j], doc[j])}
         raw = {"p": float(p[j]), "So": float(so[j]), "c": float(cp[j]), "storage_difference": float(ref),
                "storage_scale": float(scale), "lambda": float(lam[j]), "documented_lambda": float(doc[j]),
-               "alpha": float(al[j])}
+               "alpha": float(al[j]), "lambda_through_object": float(lam_obj[j]), "c_through_object": float(c_obj[j]),
+               "lambda_through_object_after_next_case": float(lam_kept[j])}
         if cfg["family"] == "constant":
             agree["zero"] = quant.e15(cp[j], 0.0, scale)
         if cp[j] != 0.0 and np.isfinite(cp[j]):
